@@ -21,6 +21,7 @@ if HERE not in sys.path:
 
 import tlcio  # noqa: E402
 
+VARY_PROPS = {"C01", "C02", "C04", "C05", "C10", "C11", "C12", "C13", "C20", "C07"}   # direction / normal vectors are rescaled and negated at random
 NPROC = int(os.environ.get("VERIF_NPROC", "16"))
 BATCH = 400
 
@@ -44,6 +45,8 @@ def _replay_batch(args):
         h = int(hashlib.sha1(json.dumps(case, sort_keys=True).encode()).hexdigest()[:12], 16)
         rng = random.Random(h ^ (seed * 1000003))
         try:
+            import geom
+            geom.VARY = random.Random(h + 7) if prop in VARY_PROPS else None
             res = mod.replay_case(case, tag, rng, tier)
         except Exception as e:   # noqa: BLE001 - a crash of the harness itself is a machinery failure
             import traceback
@@ -286,6 +289,7 @@ def run_replay(path):
     case = rp["case"]
     h = int(hashlib.sha1(json.dumps(case, sort_keys=True).encode()).hexdigest()[:12], 16)
     rng = random.Random(h ^ (rp["seed"] * 1000003))
+    geom.VARY = random.Random(h + 7) if prop in VARY_PROPS else None
     out = mod.replay_case(case, rp.get("tag", ""), rng, rp.get("tier", "quick"))
     ms = out.get("mism", [])
     findings = load_findings()
